@@ -44,7 +44,8 @@ QUICK_MTUS = [23, 24, 48, 185, 517]
 # ---------------------------------------------------------------------------
 # databases
 # ---------------------------------------------------------------------------
-SHAPES = {'std': 6, 'many': 3, 'dyn': 0, 'raw': 3, 'svcs': 0}  # shape -> number of protectable positions
+SHAPES = {'std': 6, 'many': 3, 'dyn': 0, 'raw': 3, 'svcs': 0, 'widths': 0}  # shape -> number of protectable positions
+U32 = ['A0B0C0D%X' % i for i in range(8)]  # 32-bit UUIDs: 4 bytes in memory, 16 bytes on the air
 
 
 def shape_spec(shape, L, prot, n):
@@ -79,6 +80,23 @@ def shape_spec(shape, L, prot, n):
             ['raw', U128C, pm(2), ['b', L, 8]],
             ['raw', '2803', RW, ['b', 5, 9]],
             ['raw', '2800', RW, ['x', '01b0']],
+        ]
+    if shape == 'widths':
+        # runs of consecutive attributes whose TYPE is a 32-bit UUID (and 16- / 128-bit ones next to them): Find Information
+        # and Read By Type budget their entries by the size the type has on the air
+        return [
+            ['svc', U32[0], True, [
+                [U32[1], P_R | P_W, RW, ['b', L, 1], [[U32[2], RW, ['b', L, 2]], [U32[3], RW, ['b', 1, 3]], [U32[4], RW, ['b', 2, 4]], ['2901', RW, ['b', L, 5]], [U128C, RW, ['b', 1, 6]], [U128S, RW, ['b', 1, 7]]]],
+                [U32[1], P_R | P_W, RW, ['b', L, 8], []],
+            ]],
+            ['raw', U32[5], RW, ['b', L, 9]],
+            ['raw', U32[5], RW, ['b', L, 10]],
+            ['raw', U32[6], RW, ['b', 1, 11]],
+            ['raw', U32[7], RW, ['b', 1, 12]],
+            ['raw', 'A001', RW, ['b', L, 13]],
+            ['raw', 'A001', RW, ['b', L, 14]],
+            ['raw', U128C, RW, ['b', L, 15]],
+            ['raw', U32[5], RW, ['b', 2, 16]],
         ]
     if shape == 'svcs':
         return (
